@@ -588,6 +588,49 @@ pub fn line_lengths(prop: &'static str) -> Space {
     )
 }
 
+/// LINE-NUMERIC-SHORT: the four numeric fields (count, number, sequence id, fill) replaced by EVERY
+/// string of length <= 3 over {0 1 2 5 9 + - space . a x}, checksum recomputed: what exactly counts
+/// as a decimal number.
+pub fn line_numeric_short(prop: &'static str) -> Space {
+    const A: [u8; 11] = [b'0', b'1', b'2', b'5', b'9', b'+', b'-', b' ', b'.', b'a', b'x'];
+    let per = 1 + 11 + 121 + 1331u64;
+    Space::new(
+        "LINE-NUMERIC-SHORT",
+        "count / number / sequence id / fill field x every string of length 0..=3 over {0 1 2 5 9 + - space . a x} x 2 templates, checksum recomputed",
+        per * 4 * 2,
+        move |i, l| {
+            let mut r = Radix(i);
+            let tmpl = r.take(2);
+            let slot = r.take(4);
+            let mut k = r.0;
+            let mut len = 0usize;
+            let mut cnt = 1u64;
+            while k >= cnt {
+                k -= cnt;
+                cnt *= 11;
+                len += 1;
+            }
+            let content: Vec<u8> = (0..len)
+                .map(|_| {
+                    let d = (k % 11) as usize;
+                    k /= 11;
+                    A[d]
+                })
+                .collect();
+            let mut payload = vec![b'0'; 28];
+            payload[0] = b'1';
+            let mut m = if tmpl == 0 { Mk::new(1, 1, b"", &payload, 0) } else { Mk::new(2, 1, b"7", &payload[..13], 0) };
+            match slot {
+                0 => m.n = content,
+                1 => m.k = content,
+                2 => m.id = content,
+                _ => m.fill = content,
+            }
+            judge_line(l, &m.render(), false, prop);
+        },
+    )
+}
+
 pub const STRUCT16: [u8; 16] = [b'!', b'$', b'\\', b',', b'*', b'0', b'1', b'6', b'9', b'A', b'G', b'w', b'x', b'\r', 0x00, 0xff];
 
 /// LINE-MUT2: every pair of positions × 16² structural bytes on a few seeds.
@@ -928,6 +971,7 @@ pub fn c07(tier: Tier) -> Vec<Space> {
         line_grammar("C07", tier == Tier::Thorough),
         line_field_short("C07", if tier == Tier::Quick { 3 } else { 4 }),
         line_numeric("C07"),
+        line_numeric_short("C07"),
         line_lengths("C07"),
         line_chan("C07"),
         line_addr("C07", tier == Tier::Thorough),
@@ -945,6 +989,7 @@ pub fn c08(tier: Tier) -> Vec<Space> {
         line_short("C08", if tier == Tier::Quick { 5 } else { 7 }),
         line_field_short("C08", if tier == Tier::Quick { 3 } else { 4 }),
         line_numeric("C08"),
+        line_numeric_short("C08"),
         line_lengths("C08"),
         line_cksum("C08"),
     ];
